@@ -31,12 +31,15 @@ let event_of (seed : int) (e : Sexp.t) : ag_event * string =
   | [Atom "rf"; a; u] -> (AERestFetch (s_n a, s_n u), "rf")
   | [Atom "wc"; a; c; n; d] -> (AEWsConnect (s_n a, s_n c, eid_of (s_int n) (s_int d)), "wc")
   | [Atom "wd"; a; c] -> (AEWsDisconnect (s_n a, s_n c), "wd")
+  | [Atom "wo"; a; c] -> (AEWsDial (s_n a, s_n c), "wo")
+  | [Atom "wg"; a; c; n; d] -> (AEWsRegister (s_n a, s_n c, Some (eid_of (s_int n) (s_int d))), "wg")
+  | [Atom "wb"; a; c] -> (AEWsRegister (s_n a, s_n c, None), "wb")
   | [Atom "dv"; b; n; d; rn; rd; w] ->
     (AEDeliver ({ ab_id = s_n b; ab_dst = eid_of (s_int n) (s_int d); ab_rpt = eid_of (s_int rn) (s_int rd);
                   ab_want = s_int w <> 0 }, mk_oracle seed), "dv")
   | _ -> raise (Bad "event")
 
-(* all recipients that exist in a state *)
+(* all recipients that exist in a state (WebSocket clients: every connected one, registered or not) *)
 let recipients (s : ag_state) : ag_recipient list =
   List.concat_map (fun (a, g) -> match g with
       | AMock _ -> [RMock a]
@@ -64,12 +67,13 @@ type obs = {
   cl : (int * int * int * int) list;
   mb : (int * int * int list) list;
   wsn : (int * int) list;
+  ack : bool option;
   errs : string list;
 }
 
 let parse_obs (o : Sexp.t) : obs =
   let rids = ref [] in
-  let r = ref { hands = []; sent = []; reports = []; others = 0; fetched = None; st = None; cl = []; mb = []; wsn = []; errs = [] } in
+  let r = ref { hands = []; sent = []; reports = []; others = 0; fetched = None; st = None; cl = []; mb = []; wsn = []; ack = None; errs = [] } in
   List.iter (fun it -> match lst it with
       | [Atom "h"; k; a; x; b] ->
         let rc = (match s_int k with
@@ -91,6 +95,7 @@ let parse_obs (o : Sexp.t) : obs =
         r := { !r with mb = List.map (fun e -> match lst e with [a; u; bs] -> (s_int a, s_int u, ints bs) | _ -> raise (Bad "mb")) (lst l) }
       | [Atom "wsn"; l] ->
         r := { !r with wsn = List.map (fun e -> match ints e with [a; c] -> (a, c) | _ -> raise (Bad "wsn")) (lst l) }
+      | [Atom "ack"; Atom a] -> r := { !r with ack = Some (a = "ok") }
       | [Atom "err"; Atom e] -> r := { !r with errs = !r.errs @ [e] }
       | _ -> raise (Bad "obs item")) (lst o);
   !r
@@ -150,10 +155,17 @@ let hist = function
                    else (add (Propfail ("c07.mailbox.rewritten", Printf.sprintf "step %d: mailbox of %s was %s, is %s" idx (show_r r) (show_ids before) (show_ids after))); [])
                  | _ -> List.filter_map (fun (r', x) -> if ag_recipient_eqb r r' then Some x else None) o.hands in
                let any_reg = List.exists reg rs in
-               let handed = ref 0 in
+               (* hand-overs to anybody / to recipients registered for the destination *)
+               let handed = ref 0 and handed_reg = ref 0 in
+               let ws_unregistered r = (match r with
+                   | RWs (a, c) -> (match ag_registered s0.ast_ch r b.ab_dst, List.assoc_opt a s0.ast_ch with
+                       | false, Some (AWs cl) -> (match List.assoc_opt c cl with Some None -> true | _ -> false)
+                       | _ -> false)
+                   | _ -> false) in
                List.iter (fun r ->
                    let got = observed r in
                    handed := !handed + List.length got;
+                   if reg r then handed_reg := !handed_reg + List.length got;
                    let want = if (not pre) && reg r then [bid] else [] in
                    if got <> want then begin
                      let k = kind_name r in
@@ -163,6 +175,8 @@ let hist = function
                        add (Propfail ("c07.dup-delivered." ^ k, Printf.sprintf "step %d: copy of %d not accepted, yet %s received it" idx bid (show_r r)))
                      else if got = [] then
                        add (Propfail ("c07.missed." ^ k, Printf.sprintf "step %d: %s is registered for the destination of bundle %d and did not receive it" idx (show_r r) bid))
+                     else if want = [] && ws_unregistered r then
+                       add (Propfail ("c07.extra.ws-unregistered", Printf.sprintf "step %d: %s is connected but has not registered an endpoint and received %s" idx (show_r r) (show_ids got)))
                      else if want = [] then
                        add (Propfail ("c07.extra." ^ k, Printf.sprintf "step %d: %s is not registered for the destination of bundle %d and received %s" idx (show_r r) bid (show_ids got)))
                      else
@@ -175,10 +189,13 @@ let hist = function
                    end) o.hands;
                if (not pre) && any_reg && List.exists (fun (_, x) -> x = bid) o.sent then
                  add (Propfail ("c07.sent-to-peer", Printf.sprintf "step %d: bundle %d has registered local recipients and was transmitted to a peer" idx bid));
-               if List.mem bid o.reports && !handed = 0 then
-                 add (Propfail ("c07.report-without-handover", Printf.sprintf "step %d: delivered-report for bundle %d without any hand-over" idx bid));
-               if (not pre) && (not known_after) && !handed = 0 then
-                 add (Propfail ("c07.release-without-handover", Printf.sprintf "step %d: bundle %d left the store without any hand-over" idx bid));
+               ignore !handed;
+               if List.mem bid o.reports && !handed_reg = 0 then
+                 add (Propfail ("c07.report-without-handover", Printf.sprintf "step %d: delivered-report for bundle %d without any hand-over to a recipient registered for its destination" idx bid));
+               if (not pre) && (not known_after) && !handed_reg = 0 then
+                 add (Propfail ("c07.release-without-handover", Printf.sprintf "step %d: bundle %d left the store without any hand-over to a recipient registered for its destination" idx bid));
+               if (not any_reg) && (b.ab_dst = eid_of 8 0) then tagit "dv-none-nobody";
+               if (not any_reg) && List.exists (fun r -> match r with RWs _ -> ws_unregistered r | _ -> false) rs then tagit "dv-nobody-with-unregistered-ws";
                if not pre then
                  List.iter (fun r -> match r with
                      | RRest (a, u) when reg r ->
@@ -242,6 +259,16 @@ let hist = function
                if model_cl s1 <> o.cl then mis "REST clients map";
                if model_mb s1 <> o.mb then mis "REST mailbox map";
                if model_wsn s1 <> o.wsn then mis "WebSocket client count";
+               (match mev, o.ack with
+                | AEWsRegister (a, c, _), Some ok ->
+                  let m = (match List.assoc_opt a s1.ast_ch with
+                      | Some (AWs cl) -> (match List.assoc_opt c cl with Some (Some _) -> true | _ -> false)
+                      | _ -> false) in
+                  if m <> ok then mis (Printf.sprintf "register acknowledgement: model %b impl %b" m ok);
+                  tagit (if ok then "ws-register-ok" else "ws-register-refused")
+                | AEWsRegister _, None -> mis "no register acknowledgement observed"
+                | _, Some _ -> mis "unexpected register acknowledgement"
+                | _ -> ());
                tagit kind);
             prev_mb := o.mb
           | _ -> raise (Bad "step")
@@ -293,7 +320,100 @@ let races = function
     if pf @ mm = [] then [Ok_ ["races"; (if s_int nf > 20 then "fetches>20" else "fetches<=20")]] else pf @ mm
   | _ -> raise (Bad "races case")
 
+(* ---- stable recipients while other agents and clients come and go (generator C07churn) ---- *)
+let churn = function
+  | Atom level :: rcps :: rest ->
+    let res = ref [] in
+    let add v = res := v :: !res in
+    let pair p = (match ints p with [n; d] -> (n, d) | _ -> raise (Bad "pair")) in
+    let rcps = List.map (fun r -> match lst r with
+        | [id; k; es] -> (s_int id, s_int k, List.map pair (lst es))
+        | _ -> raise (Bad "recipient")) (lst rcps) in
+    let dst = ref [||] and phases = ref [] in
+    List.iter (fun f -> match lst f with
+        | [Atom "dst"; l] -> dst := Array.of_list (List.map pair (lst l))
+        | [Atom "err"; l] -> List.iter (fun e -> add (Mismatch ("harness anomaly: " ^ s_sym e))) (lst l)
+        | [Atom "stuck"] -> ()
+        | [Atom "stuck"; what] ->
+          add (Propfail ("c07.churn.stuck", Printf.sprintf "%s: the implementation does not come back (%s): bundles for the recipients that are still registered are not delivered any more" level (s_sym what)))
+        | ph -> phases := !phases @ [ph]) rest;
+    let dst = !dst in
+    let kname = function 0 -> "mock" | 1 -> "ping" | 2 -> "rest" | 3 -> "ws" | 4 -> "ws-unregistered" | _ -> "leaving" in
+    (* kind 5: a recipient that leaves during the deliveries - the harness writes only what it must not
+       have received (bundles for other endpoints, second copies); it is not part of the model run *)
+    let stable = List.filter (fun (_, k, _) -> k <> 5) rcps in
+    (* the model's configuration: every stable recipient is an agent of its own *)
+    let agent_of (_, k, es) = match k, es with
+      | 0, _ -> AMock (List.map (fun (n, d) -> eid_of n d) es)
+      | 1, [(n, d)] -> APing (eid_of n d)
+      | 2, [(n, d)] -> ARest ([(ni 0, eid_of n d)], [])
+      | 3, [(n, d)] -> AWs [(ni 0, Some (eid_of n d))]
+      | 4, [] -> AWs [(ni 0, None)]
+      | _ -> raise (Bad "recipient kind") in
+    let rcp_of (id, k, _) = match k with
+      | 0 -> RMock (ni id) | 1 -> RPing (ni id) | 2 -> RRest (ni id, ni 0) | _ -> RWs (ni id, ni 0) in
+    let s0 = { (ag_init (ni 0, ni 0) [ni 1; ni 2]) with ast_ch = List.map (fun ((id, _, _) as r) -> (ni id, agent_of r)) stable } in
+    List.iteri (fun pi ph ->
+        let (nb, wrong, noagent, obs, others, sent) = (match ph with
+            | [nb; w; na; ob; ot] -> (s_int nb, w, ints na, ob, s_int ot, [])
+            | [nb; w; na; ob; ot; se] -> (s_int nb, w, ints na, ob, s_int ot, ints se)
+            | _ -> raise (Bad "churn phase")) in
+        if nb > Array.length dst then raise (Bad "churn nb");
+        let where = Printf.sprintf "%s phase %d" level pi in
+        List.iter (fun w -> match lst w with
+            | [e; c] when s_int c > 0 ->
+              let (n, d) = pair e in
+              add (Propfail ("c07.churn.hasendpoint-false", Printf.sprintf "%s: HasEndpoint answered false %d times for endpoint (%d,%d), which a recipient is registered for all the time" where (s_int c) n d))
+            | _ -> ()) (lst wrong);
+        if noagent <> [] then begin
+          if level = "core" then
+            add (Mismatch (Printf.sprintf "%s: bundles %s are still in the store (model: delivered and released)" where (show_ids noagent)))
+          else
+            add (Propfail ("c07.churn.no-agent", Printf.sprintf "%s: no registered agent found for bundles %s, whose recipients are registered all the time" where (show_ids noagent)))
+        end;
+        if sent <> [] then
+          add (Propfail ("c07.churn.sent-to-peer", Printf.sprintf "%s: bundles %s have registered local recipients and were transmitted to a peer" where (show_ids sent)));
+        if others > 0 then
+          add (Propfail ("c07.churn.extra.other", Printf.sprintf "%s: agents registered for other endpoints received %d bundles" where others));
+        (* the model: the same deliveries, nobody else around (C07_amid_others: the others do not matter) *)
+        let st = ref s0 and outs = ref [] in
+        for i = 0 to nb - 1 do
+          let (n, d) = dst.(i) in
+          let b = { ab_id = ni i; ab_dst = eid_of n d; ab_rpt = eid_of 1 0; ab_want = false } in
+          match ag_step !st (AEDeliver (b, mk_oracle (i + 1))) with
+          | Some (s1, o) -> st := s1; outs := !outs @ o
+          | None -> raise (Bad "churn model step")
+        done;
+        List.iter (fun ((id, k, es) as r) ->
+            let got = (try (match List.find (fun o -> match lst o with [i; _] -> s_int i = id | _ -> false) (lst obs) with
+                | List [_; l] -> ints l | _ -> []) with Not_found -> []) in
+            let want = List.filter (fun i -> k <> 4 && List.mem dst.(i) es) (upto 0 nb) in
+            let pf = ref false in
+            if k = 5 then begin
+              if got <> [] then
+                add (Propfail ("c07.churn.extra.leaving", Printf.sprintf "%s: recipient %d, which left during the deliveries, received bundles for other endpoints, altered bundles (9999) or second copies: %s" where id (show_ids got)))
+            end else begin
+            let fail key d = pf := true; add (Propfail (key, Printf.sprintf "%s: recipient %d (%s): %s; received %s" where id (kname k) d (show_ids got))) in
+            if List.exists (fun x -> x < 0 || x >= nb) got then fail "c07.churn.altered" "received something that is none of the delivered bundles"
+            else begin
+              let missing = List.filter (fun i -> not (List.mem i got)) want in
+              let extra = List.filter (fun i -> not (List.mem i want)) got in
+              let twice = List.filter (fun i -> List.length (List.filter ((=) i) got) > 1) want in
+              if missing <> [] then fail ("c07.churn.missed." ^ kname k) (Printf.sprintf "registered all the time, did not receive %s" (show_ids missing));
+              if twice <> [] then fail ("c07.churn.twice." ^ kname k) (Printf.sprintf "received %s more than once" (show_ids twice));
+              if extra <> [] then fail ("c07.churn.extra." ^ kname k) (Printf.sprintf "not registered for the destination of %s" (show_ids extra))
+            end;
+            let m = ids_of (ag_hands_to (rcp_of r) !outs) in
+            if (not !pf) && m <> got then
+              add (Mismatch (Printf.sprintf "%s: hand-overs to recipient %d: model %s impl %s" where id (show_ids m) (show_ids got)))
+            end) rcps;
+        if List.exists ag_is_sent !outs || !st.ast_known <> [] then add (Mismatch (where ^ ": the model forwards or keeps a bundle"))) !phases;
+    if !res = [] then [Ok_ ["churn"; level; Printf.sprintf "phases=%s" (let n = List.length !phases in if n >= 100 then ">=100" else if n >= 10 then "10..99" else string_of_int n)]]
+    else List.rev !res
+  | _ -> raise (Bad "churn case")
+
 let () =
   register "C07agents" "hist" hist;
   register "C07race" "racef" racef;
-  register "C07race" "races" races
+  register "C07race" "races" races;
+  register "C07churn" "churn" churn
